@@ -477,5 +477,28 @@ def run(index: RepoIndex, rep) -> None:
                   f'{cname}.build does not pass (grid_shape, object_types, colors) in order',
                   f'{cname}.build')
 
+    # simple converters: order and content of the configured lists are kept
+    conv = {
+        'factory_shape': 'Shape(*data)',
+        'factory_colors': '[Color[name] for name in data]',
+        'factory_object_types': '[factory_object_type(d) for d in data]',
+        'factory_action_space': 'ActionSpace([Action[name] for name in data])',
+        'factory_distance_function': 'distance_function_factory(data)',
+    }
+    for name, want in conv.items():
+        f = index.func(FACTORY, name)
+        w = walk_function(f.node)
+        rets = [src(w.expand(e.value, stop=['data'])) for e in w.events
+                if e.kind == 'return' and e.value is not None]
+        rep.check(rets == [want], 'C17.R6', FACTORY, name, f.node.lineno, '; '.join(rets),
+                  f'{name} returns `{"; ".join(rets)[:80]}`, not `{want}` of the validated data '
+                  f'(e.g. the configured order of actions decides which index runs which '
+                  f'action)', f'{name} converter')
+    txt = src(index.func(FACTORY, 'factory_env_from_data').node)
+    rep.check("factory_action_space(data['action_space']) if 'action_space' in data else "
+              "ActionSpace(list(Action))" in txt, 'C17.R6', FACTORY, 'factory_env_from_data',
+              fe.node.lineno, 'action_space = ...', 'the action space is not the configured '
+              'list (or all actions in enum order when absent)', 'action space wiring')
+
     # ---------------------------------------------------------------- R7
     declared_types_rule(index, rep, 'C17.R7')
